@@ -136,7 +136,8 @@ PROPS = {
             "interface stand-ins (declarations only): Wire, Encode, Plugin, Impl{plugin}, WideColumn, WideColumnValue; discriminant_encoding()/discriminant() are constants of their types",
             "transform_key precondition: RocksDB only passes keys of the column family (or bounds derived from them), whose 8-byte length field is < 2^64-8",
             "key images are prefix-free and injective (C12) -- used as hypothesis prefix_free_ty of the pair-injectivity lemmas",
-            "not under contract: get_or_create_cf*, cf_name_from_id, RocksDBWriteBatch/SerializationBuffer plumbing, commit, ScanMembersIterator::next (its split arithmetic is lemma_member_split), reopen",
+            "operations layer (both backends): every method of `impl WriteBatch` and `impl SerializationBuffer` (put / delete / insert_member / delete_member / consume_serialization_buffer / should_write_more) is proved to issue exactly one backend operation on the column (type id, kind) of its column type with key = wide_key / member_key and value = the value image, the recorded path replays to the same operation sequence in order (replayed_all), and the size estimate never overflows under the stated precondition. Stand-ins: the backend batch (rust_rocksdb::WriteBatch / fjall::OwnedWriteBatch) is an ordered ghost log of operations; get_or_create_cf / get_or_create_keyspace return a handle that names (type id, kind) (DashMap cache + backend handles not under contract)",
+            "not under contract: get_or_create_cf* bodies, cf_name_from_id, commit (one backend write: trusted atomic), the readers get_wide_column / scan_members (self-referencing iterator, Cursor-based decoding) and ScanMembersIterator::next (its split arithmetic is lemma_member_split) -- covered by the real-backend bounded run; reopen",
         ],
     },
     "C12": {
